@@ -300,6 +300,8 @@ def gen_c17(tier, rng):
         bs = rng.randrange(0, 11)
         fn = rng.choice([2, 3, 4])
         cases.append(("ranges", [fn, bs, 0] + q))
+    for q in ([M - 1023, M], [M - 1024, M], [0, M], [M - 5, M - 1], [M - 2048, M - 1023], [M - 1022], [7, M - 1024, M - 3, M]):
+        cases.append(("ranges", [2, 0, 0] + q))
     # the crate's own "last chunk" query and its neighbours
     for bs in range(0, 11):
         for q in ([M], [M - 1], [M - (1 << bs)], [M - (1 << bs) + 1], [5, M], [0, M], [M - 1, M], [3, M - (1 << bs)], [3, M - (1 << bs) + 1]):
@@ -424,8 +426,9 @@ def std_queries(n, rng, k_random=3):
     qs = [[0], [0, 1], [n - 1, n], [n, n + 1], [n + 5], [M64], [0, n], [0, n + 1]]
     if n >= 2:
         qs += [[1, 2], [0, 1, n - 1, n], [1], [0, n - 1]]
+    qs += [[0, n, n + 4], [0, max(1, n - 1), n + 7], [0, n + 1, 1000]]
     if n >= 3:
-        qs += [[1, n - 1], [0, 1, 2, 3], [0, 1, n + 2, n + 3], [1, 2, n, n + 9]]
+        qs += [[1, n - 1], [0, 1, 2, 3], [0, 1, n + 2, n + 3], [1, 2, n, n + 9], [0, 1, 2, n - 1, n + 50]]
     if n >= 5:
         qs += [[2, 5], [3, 4], [0, 2, 4, 5]]
     for _ in range(k_random):
@@ -633,11 +636,11 @@ def gen_c09(tier, rng):
                 pos, L = stream_positions(lay, tier, rng, 300 if tier == "quick" else 2200)
                 sd = seed(rng)
                 for p in pos:
-                    d = rng.randrange(0, 5)
                     sk = rng.randrange(0, 2)
-                    cases.append(dec_case(0, sd, size, bs, size, d, sk, q, ops=[1, p, 0, 0]))
-                    d = rng.randrange(0, 5)
-                    cases.append(dec_case(0, sd, size, bs, size, d, sk, q, ops=[2, p, 1 + rng.randrange(255), 0]))
+                    for d in (0, 1, rng.choice([2, 3, 4])):
+                        cases.append(dec_case(0, sd, size, bs, size, d, sk, q, ops=[1, p, 0, 0]))
+                    for d in (rng.randrange(0, 2), rng.choice([2, 3, 4])):
+                        cases.append(dec_case(0, sd, size, bs, size, d, sk, q, ops=[2, p, 1 + rng.randrange(255), 0]))
     return cases
 
 
@@ -894,7 +897,7 @@ PROPS["C08"] = Prop(
 
 
 # ------------------------------------------------------------------ C07 histories
-F_HISTORY = Family("history", "Run.RunProto", "run_history", "holds_history", lambda a, o: a[6] >= 2)
+F_HISTORY = Family("history", "Run.RunProto", "run_history", "holds_history", lambda a, o: a[7] >= 2)
 F_HISTORY.shard_cases = 24
 
 
@@ -940,19 +943,21 @@ def gen_c07(tier, rng):
             for (sink, driver) in (rng.sample(combos, 2) if tier == "quick" else combos):
                 alpha = hist_alphabet(size, bs, rng, 8 if tier == "quick" else 7)
                 sd = seed(rng)
+                # recycled (non-zero) targets with blobs that contain all-zero chunk groups, or zeroed targets with random blobs
+                kind, prefill = rng.choice([(0, 0), (0, 170), (4, 170), (4, 85)])
                 import itertools
                 for seq_ in itertools.product(alpha, repeat=depth):
                     ops = []
                     for op in seq_:
                         ops += enc_op(op)
-                    cases.append(("history", [0, sd, size, bs, sink, driver, depth] + ops))
+                    cases.append(("history", [kind, sd, size, bs, sink, driver, prefill, depth] + ops))
                 big = hist_alphabet(size, bs, rng, 40)
                 for _ in range(6 if tier == "quick" else 40):
                     ln = rng.randrange(3, 9 if tier == "quick" else 13)
                     ops = []
                     for _ in range(ln):
                         ops += enc_op(rng.choice(big))
-                    cases.append(("history", [0, sd, size, bs, sink, driver, ln] + ops))
+                    cases.append(("history", [kind, sd, size, bs, sink, driver, prefill, ln] + ops))
     return cases
 
 
